@@ -1,6 +1,7 @@
 package props
 
 import (
+	"bytes"
 	"fmt"
 	"math/big"
 	"sync"
@@ -47,6 +48,10 @@ type c07Shape struct {
 	Granter bool     `json:"granter,omitempty"`
 	Fee     string   `json:"fee,omitempty"` // "", more, less, otherdenom, none, two
 	Gas     string   `json:"gas,omitempty"` // "", more, less
+	// proto-level surgery after building: raw signature entries without signer infos and vice versa
+	RawSigs       int  `json:"raw_sigs,omitempty"`
+	DropSigInfos  bool `json:"drop_sig_infos,omitempty"`
+	DropSignature bool `json:"drop_signature,omitempty"`
 }
 
 type c07Case struct {
@@ -142,6 +147,16 @@ func genC07Shape(t *rapid.T) c07Shape {
 	}
 	if dev("devgas") {
 		s.Gas = rapid.SampledFrom([]string{"more", "less"}).Draw(t, "gas")
+	}
+	if dev("devrawsig") {
+		switch rapid.IntRange(0, 2).Draw(t, "rawsigk") {
+		case 0:
+			s.RawSigs = rapid.IntRange(1, 2).Draw(t, "rawsigs")
+		case 1:
+			s.Sig, s.DropSigInfos = "valid", true
+		default:
+			s.Sig, s.DropSignature = "valid", true
+		}
 	}
 	// Cosmos-lane txs need a signature to get anywhere
 	hasEthTop := false
@@ -306,7 +321,29 @@ func buildC07(c *chain.Chain, s c07Shape, k int, seq, accNum uint64) ([]byte, *e
 		ct.FeeGranter = chain.K((k + 1) % c07Keys).Acc().String()
 	}
 	bz, err := ct.Build(c.TxCfg, c.World.CID(), accNum, seq)
-	return bz, firstEth, err
+	if err != nil || (s.RawSigs == 0 && !s.DropSigInfos && !s.DropSignature) {
+		return bz, firstEth, err
+	}
+	// proto-level surgery: shapes no tx builder produces
+	var raw txtypes.TxRaw
+	if err := raw.Unmarshal(bz); err != nil {
+		return bz, firstEth, nil
+	}
+	for i := 0; i < s.RawSigs; i++ {
+		raw.Signatures = append(raw.Signatures, bytes.Repeat([]byte{byte(0x11 * (i + 1))}, 65))
+	}
+	if s.DropSignature {
+		raw.Signatures = nil
+	}
+	if s.DropSigInfos {
+		var ai txtypes.AuthInfo
+		if err := ai.Unmarshal(raw.AuthInfoBytes); err == nil {
+			ai.SignerInfos = nil
+			raw.AuthInfoBytes, _ = ai.Marshal()
+		}
+	}
+	out, err := raw.Marshal()
+	return out, firstEth, err
 }
 
 // ethShapeOK is the acceptance rule written from the property text, evaluated on the decoded proto tx.
